@@ -44,7 +44,6 @@ RULE = ("spends are generated from one PRNG seeded by VERIF_SEED (shape, key sub
         "1..3 inputs/outputs, amounts, tree shape), every spend goes through the whole mutation catalogue; plus the "
         "fixed witnesses of F06a-F06g; a case is non-trivial when it is not the unmutated spend; distinct = distinct "
         "(scriptSig, scriptPubKey, witness, transaction digest) tuples")
-CLAUSES = {}      # filled in below (kept next to the theorem names)
 TRUSTED = ["signature verification, key / signature / control-block parsing and the signature hash enter the theorems "
            "as oracles of the environment (`Env`); C01/C02/C05/C12 are about those functions",
            "hash160 / sha256 are parameters; soundness is stated with collision extraction (an accepted spend with a "
@@ -59,14 +58,27 @@ ASSUMPTIONS = [
 
 CLAUSES = {
     "a spend built and signed through the library is reported valid (eight shapes)":
-        "proved over the oracles (complete_p2pkh, complete_p2wpkh, complete_p2sh_p2wpkh, complete_p2sh_multisig, "
-        "complete_p2wsh_multisig, complete_p2sh_p2wsh_multisig, complete_p2tr_keypath, complete_p2tr_scriptpath) + "
-        "checked on every generated spend",
-    "never valid without authorisation, for every scriptSig and witness":
-        "proved in the repaired configuration (sound_p2pkh, sound_p2wpkh, sound_p2sh_p2wpkh, sound_p2sh_multisig, "
-        "sound_p2wsh_multisig, sound_p2sh_p2wsh_multisig, sound_p2tr); F06a..F06g witnesses for the unrepaired code",
-    "a signature over a different transaction / flipped sighash byte": "through the sighash oracle: correspondence + "
-        "the authorisation predicate on every field mutation (C05 proves what the digest commits to)",
+        "proved over the oracles: complete_p2pkh, complete_p2sh_multisig (any 1 <= m, n <= 16), complete_p2wpkh, "
+        "complete_p2sh_p2wpkh, complete_p2wsh_multisig, complete_p2sh_p2wsh_multisig, complete_p2tr_keypath, "
+        "complete_p2tr_scriptpath (k-of-n MultiSigTapScript leaf); checked on every library-built spend of the run; "
+        "MuSig leaves: correspondence of C13 only",
+    "never valid without authorisation, for EVERY scriptSig and witness":
+        "proved in the repaired configuration: sound_p2pkh (any opcodes and conditionals in the scriptSig), "
+        "sound_p2wpkh, sound_p2sh_p2wpkh, sound_p2sh_multisig, sound_p2wsh_multisig, sound_p2sh_p2wsh_multisig "
+        "(collision extraction for hash160 / sha256), sound_p2tr (key path or committed script path), "
+        "tapleaf_multisig_sound (exactly k signatures), tapleaf_single_sound",
+    "fewer than m valid signatures / a signature by a key outside the script / reordered / duplicated signatures":
+        "proved: MultisigAuth = m popped signatures verify for an order-preserving selection of distinct script keys "
+        "(SigMatch); F06a_witness shows today's fall-through",
+    "a signature over a different transaction / flipped sighash byte":
+        "relative to the oracles (sigPre / ecdsaOK / schnorrOK take the hash type; C05 proves what each digest commits "
+        "to): correspondence + the authorisation predicate on every field mutation",
+    "wrong public key, redeem script, witness script, leaf script or control block":
+        "proved with collision extraction (sound_p2sh_*, sound_p2wsh_multisig) and through the tapCommit oracle on the "
+        "exact script bytes (sound_p2tr; F06g_witness)",
+    "a scriptSig / witness that carries no valid signature whatever other items or opcodes it contains":
+        "proved (the soundness theorems quantify over all command lists and witnesses); F06b_fixed, F06c_witness, "
+        "F06d_witness, F06e_witness, F06f_witness show the unrepaired behaviour",
 }
 
 _S = {"patched": False, "rec": None, "vcache": {}, "keys": None}
@@ -464,7 +476,8 @@ def build_spend(rng, shape):
         ti._script_pubkey = P2TRScriptPubKey(outpt)
         if shape == "p2tr_key":
             tweaked = key.tweaked_key(merkle_root)
-            ok = tx.sign_p2tr_keypath(idx, tweaked, hash_type=rng.choice([0, 0, 1, 0x81, 3]))
+            hts = [0, 0, 1, 0x81, 2, 0x82] + ([3, 0x83] if idx < n_out else [])   # SINGLE needs a matching output
+            ok = tx.sign_p2tr_keypath(idx, tweaked, hash_type=rng.choice(hts))
         else:
             li = rng.randrange(len(leaves))
             lf, info = leaves[li], leafinfo[li]
@@ -589,14 +602,23 @@ def mutations(rng, sp, tx, idx, foreign):
         yield mk("redeem_twice", ss2=ss + [redeem])
         att = [0x51, other.point.sec(), 0x51, 0xAE]
         from buidl.script import RedeemScript
-        yield mk("attacker_redeem", ss2=[0, foreign(tx), RedeemScript(att).raw_serialize()])
+        att_rs = RedeemScript(att)
+        try:      # a signature that is valid for the ATTACKER's redeem script
+            att_sig = tx.get_sig_legacy(idx, other, redeem_script=att_rs)
+        except Exception:
+            att_sig = foreign(tx)
+        yield mk("attacker_redeem", ss2=[0, att_sig, att_rs.raw_serialize()])
     if shape in ("p2wsh_ms", "p2sh_p2wsh_ms"):
         w = wit[-1]
         yield mk("wscript_bitflip", wit2=wit[:-1] + [w[:-1] + bytes([w[-1] ^ 1])])
         yield mk("wscript_missing", wit2=wit[:-1])
         from buidl.script import WitnessScript
-        att = WitnessScript([0x51, other.point.sec(), 0x51, 0xAE]).raw_serialize()
-        yield mk("attacker_wscript", wit2=[b"", foreign(tx), att])
+        att_ws = WitnessScript([0x51, other.point.sec(), 0x51, 0xAE])
+        try:      # a signature that is valid for the ATTACKER's witness script
+            att_sig = tx.get_sig_segwit(idx, other, redeem_script=sp.get("redeem"), witness_script=att_ws)
+        except Exception:
+            att_sig = foreign(tx)
+        yield mk("attacker_wscript", wit2=[b"", att_sig, att_ws.raw_serialize()])
     if shape in ("p2wpkh", "p2wsh_ms", "p2tr"):
         yield mk("scriptsig_01", ss2=[b"\x01"], wit2=[])                   # F06c
         yield mk("scriptsig_op1", ss2=[0x51], wit2=[])
@@ -757,7 +779,7 @@ def run(ctx):
         rec.finding(fid, impl == "ACCEPT", {"line": spend_line(tx, 0), "what": what})
         rows.append({"name": "finding_" + fid, "shape": "finding", "line": spend_line(tx, 0), "impl": impl, "auth": False,
                      "tables": tables, "base": False, "built_ok": True})
-    n = ctx.n(160, 2400)
+    n = ctx.n(256, 3200)
     jobs = [(ctx.seed, i, SHAPES[i % len(SHAPES)]) for i in range(n)]
     for part in pmap(_work, jobs, workers=ctx.workers, chunksize=1):
         rows += part
